@@ -188,8 +188,43 @@ def lexMatrix (s : Str) : List MRow := (readlines s).map lexMatrixLine
 
 /-! ### printing -/
 
+def digitChar : Nat → Char
+  | 0 => '0' | 1 => '1' | 2 => '2' | 3 => '3' | 4 => '4'
+  | 5 => '5' | 6 => '6' | 7 => '7' | 8 => '8' | _ => '9'
+
+/-- decimal digits of `n` in front of `acc` (`fuel > n` is plenty) -/
+def natStrAux : Nat → Nat → Str → Str
+  | 0, _, acc => acc
+  | f + 1, n, acc =>
+    if n < 10 then digitChar n :: acc else natStrAux f (n / 10) (digitChar (n % 10) :: acc)
+
 /-- `str(n)` -/
-def natStr (n : Nat) : Str := (toString n).toList
+def natStr (n : Nat) : Str := natStrAux (n + 1) n []
+
+/-- `s.isdigit()` on the ASCII fragment: non-empty, only `0..9` -/
+def isDigitStr (s : Str) : Bool := !s.isEmpty && s.all (fun c => (digit? c).isSome)
+
+/-- `int(s)` for a string with `isDigitStr s` -/
+def digitsVal (s : Str) : Nat := s.foldl (fun a c => a * 10 + (c.toNat - 48)) 0
+
+/-- the line boundaries of `str.splitlines()` (besides the pair `\r\n`) -/
+def isLineBreak (c : Char) : Bool := [10, 11, 12, 13, 28, 29, 30, 133, 8232, 8233].contains c.toNat
+
+/-- `s.splitlines()`: no piece for an empty tail, `\r\n` is one boundary -/
+def splitlinesAux : Bool → Str → Str → List Str
+  | _, [], cur => if cur.isEmpty then [] else [cur.reverse]
+  | afterCR, c :: cs, cur =>
+    if afterCR && c = '\n' then splitlinesAux false cs cur
+    else if isLineBreak c then cur.reverse :: splitlinesAux (c = '\r') cs []
+    else splitlinesAux false cs (c :: cur)
+
+def splitlines (s : Str) : List Str := splitlinesAux false s []
+
+/-- `str(name).splitlines() or ['']` -/
+def nameLines (name : Str) : List Str :=
+  match splitlines name with
+  | [] => [[]]
+  | l => l
 
 def join (sep : Str) : List Str → Str
   | [] => []
